@@ -10,7 +10,7 @@ from __future__ import annotations
 import itertools
 import random
 
-from .. import mslab, msmodel as ms
+from .. import mslab, msmodel as ms, textgen
 from ..core import Result, split
 
 LEVEL = "fault_enumeration"
@@ -29,8 +29,9 @@ ASSUMPTIONS = [
 ]
 EXHAUSTIVE = {"quick": True, "thorough": True}
 FLOORS = {"quick": {"cases": 4000, "faulted-cases": 3500, "true-results": 100,
-                    "cases-with-look-alike-status-texts": 500},
-          "thorough": {"cases": 23000, "faulted-cases": 22000, "true-results": 200}}
+                    "cases-with-look-alike-status-texts": 500, "random-cases": 500},
+          "thorough": {"cases": 23000, "faulted-cases": 22000, "true-results": 200,
+                       "random-cases": 400000}}
 SHARD_TIMEOUT = {"quick": 600, "thorough": 3000}
 
 BODIES = [b"keep;\n", b"keep;\r\nstop;\r\n", b"discard;", b'OK "x"\r\nNO\r\n{5}\r\nkeep;\r\n',
@@ -79,7 +80,9 @@ NAME_SETS = [("old", "new", "other"),
              ("été", "new\\", "{5}"),
              ("x" * 1000 + '"' * 20, 'n\\"w', "OK"),
              # the TARGET name is at most 1024 octets raw and longer once escaped
-             ("src", "y" * 1023 + '"', "n" * 1000 + "\\" * 13)]
+             ("src", "y" * 1023 + '"', "n" * 1000 + "\\" * 13),
+             # names whose own text starts like a quoted string
+             ("\u65e5\u202f", '"a" x', '""')]
 
 
 def all_cases(tier):
@@ -108,7 +111,42 @@ def plan(tier, seed):
     shards += [{"w": "enum", "range": [s, e], "variant": "mixed", "rs": seed * 7919 + i,
                 "stride": 1 if tier == "thorough" else 4}
                for i, (s, e) in enumerate(split(n, 48 if tier == "thorough" else 8))]
+    # drawn cases (rv/textgen.py): names and bodies from broad character classes, up to three
+    # fault points, a fault at the second or third occurrence of a verb, names listed as
+    # quoted strings or literals
+    k, per = (48, 10000) if tier == "thorough" else (4, 150)
+    shards += [{"w": "random", "rs": seed * 104729 + i, "n": per} for i in range(k)]
     return shards
+
+
+def random_case(rng):
+    st = rng.choice(states())
+    names = []
+    while len(names) < 3:
+        t = textgen.text(rng, 1, 8, exclude=["nul", "line-break", "control"])
+        if rng.random() < 0.05:
+            t = t * rng.choice([40, 130])
+        # RFC 5804 2.1: no CR, LF, NUL in a script name; at most 1024 octets so that a server
+        # can send it as a quoted string (longer ones are in NAME_SETS)
+        if any(c in t for c in "\r\n\0\x01") or len(t.encode("utf-8")) > 1024:
+            continue
+        if t not in names:
+            names.append(t)
+    r = rng.random()
+    if r < 0.3:
+        body = rng.choice(BODIES)
+    else:
+        body = "".join(textgen.text(rng, 0, 10) + rng.choice(["\r\n", "\n", "\r\n", ""])
+                       for _ in range(rng.randint(0, 6))).encode("utf-8")
+        if r > 0.97:
+            body = body * rng.choice([100, 3000])
+    plan_ = []
+    for _ in range(rng.choice([0, 1, 1, 2, 2, 3])):
+        v = rng.choice(VERBS)
+        for _ in range(rng.choice([0, 0, 0, 1, 2])):
+            plan_.append((v, "pass"))
+        plan_.append((v, rng.choice(FAULTS)))
+    return (st, body, tuple(plan_), tuple(names), rng.choice(["quoted", "quoted", "literal"]))
 
 
 def norm(b):
@@ -121,6 +159,15 @@ def norm(b):
 MARK = [0]
 
 
+def norm_any(b):
+    """for drawn bodies: CRLF, LF and a lone CR all count as line endings"""
+    return norm(b.replace(b"\r\n", b"\n").replace(b"\r", b"\n"))
+
+
+def body_of(bi):
+    return bi if isinstance(bi, bytes) else BODIES[bi]
+
+
 def build(st, bi, plan_, encodings="quoted", names=NAME_SETS[0]):
     old, new, other, same = st
     O, N, X = (n.encode("utf-8") for n in names)
@@ -131,7 +178,7 @@ def build(st, bi, plan_, encodings="quoted", names=NAME_SETS[0]):
         if other == "one-active":
             active = X
     if old != "absent":
-        scripts[O] = BODIES[bi]
+        scripts[O] = body_of(bi)
         if old == "active":
             active = O
     if not same and new != "absent":
@@ -151,8 +198,19 @@ def build(st, bi, plan_, encodings="quoted", names=NAME_SETS[0]):
 
 def run_case(case, res: Result, rng=None, probe=False):
     st, bi, plan_ = case[:3]
-    names = NAME_SETS[case[3]] if len(case) > 3 else NAME_SETS[0]
+    names = NAME_SETS[0]
+    if len(case) > 3:
+        names = case[3] if isinstance(case[3], tuple) else NAME_SETS[case[3]]
     listing = case[4] if len(case) > 4 else "quoted"
+    drawn = isinstance(bi, bytes)
+    norm = norm_any if drawn else globals()["norm"]
+    if drawn and not probe:
+        res.count("random-cases")
+        res.observe("drawn-fault-plans", "+".join("%s:%s" % p for p in plan_) or "none")
+        for c in textgen.classes_of(" ".join(names)):
+            res.observe("name-classes", c)
+        for c in textgen.classes_of(bi.decode("utf-8")):
+            res.observe("body-classes", c)
     O, N, X = (n.encode("utf-8") for n in names)
     srv = build(st, bi, plan_, names=names)
     if len(case) > 3:
@@ -208,7 +266,7 @@ def run_case(case, res: Result, rng=None, probe=False):
     cmds = [c[1] for c in srv.commands[mark:]]
     wit = {"state": {"old": st[0], "new": st[1], "other": st[2], "old==new": st[3]},
            "names": list(names), "listing": listing,
-           "body": BODIES[bi], "faults": [list(p) for p in plan_], "outcome": repr(out)[:200],
+           "body": body_of(bi), "faults": [list(p) for p in plan_], "outcome": repr(out)[:200],
            "commands": cmds, "store_before": {k.decode(): v for k, v in before.items()},
            "active_before": before_active, "store_after": {k.decode(): v for k, v in after.items()},
            "active_after": srv.active}
@@ -256,15 +314,19 @@ def run_case(case, res: Result, rng=None, probe=False):
         return problems
     res.monitor("conservation", bool(problems))
     cause = "-"
-    if problems and listing == "literal" and before_active is not None:
+    looks = any(n.startswith(b'"') for n in before)
+    if problems and listing == "literal" and (before_active is not None or looks):
         # counterfactual: the same case with the names listed as quoted strings.  If the
-        # problem vanishes it is the consequence of the ACTIVE marker being lost after a
-        # literal name (C17's recorded finding), seen from the rename emulation
+        # problem vanishes it is the consequence of one of C17's recorded findings, seen from
+        # the rename emulation: the ACTIVE marker is lost after a literal name, or a literal
+        # name whose own text starts like a quoted string is decoded as protocol syntax
         silent = Result()
         alt = run_case(case[:4] + ("quoted",), silent, rng, probe=True)
         res.count("counterfactual-runs")
         if not alt:
-            cause = "active-script-listed-as-literal"
+            cause = "+".join(c for c, on in (("active-script-listed-as-literal", before_active is not None),
+                                             ("literal-name-looks-like-quoted-string", looks)) if on)
+            res.observe("attributed-causes", cause)
     for what, detail in problems[:2]:
         sig = {"problem": what, "detail": detail,
                "fault": "+".join(f for _, f in plan_) or "none"}
@@ -274,6 +336,12 @@ def run_case(case, res: Result, rng=None, probe=False):
 
 
 def run_shard(tier, shard, res: Result):
+    if shard["w"] == "random":
+        rng = random.Random(shard["rs"])
+        for i in range(shard["n"]):
+            case = random_case(rng)
+            run_case(case, res, rng if rng.random() < 0.5 else None)
+        return
     cases = all_cases(tier)
     s, e = shard["range"]
     rng = random.Random(shard["rs"]) if shard.get("variant") == "mixed" else None
@@ -289,8 +357,10 @@ def replay(witness, res: Result):
     state = (st["old"], st["new"] if not st["old==new"] else "same", st["other"], st["old==new"])
     from ..core import unjson_bytes
     body = unjson_bytes(witness["body"])
-    bi = BODIES.index(body) if body in BODIES else 0
+    bi = BODIES.index(body) if body in BODIES else body
     case = (state, bi, tuple(tuple(p) for p in witness["faults"]))
-    if witness.get("names") and tuple(witness["names"]) in NAME_SETS:
+    if witness.get("names") and tuple(witness["names"]) in NAME_SETS and not isinstance(bi, bytes):
         case += (NAME_SETS.index(tuple(witness["names"])), witness.get("listing", "quoted"))
+    elif witness.get("names"):
+        case = (state, body, case[2], tuple(witness["names"]), witness.get("listing", "quoted"))
     run_case(case, res)
